@@ -544,6 +544,7 @@ func (e *Engine) verifyFunction(fc *FuncContract) (*VC, error) {
 		vc.typeFacts(st, args[i], p.Type())
 		fr.env[p] = args[i]
 		vc.witness[p.Name()] = args[i]
+		vc.witnessSort[args[i]] = vc.sortOf(p.Type())
 	}
 	if fn.Signature.Recv() != nil && len(args) > 0 {
 		if _, isPtr := fn.Signature.Recv().Type().Underlying().(*types.Pointer); isPtr {
@@ -593,6 +594,7 @@ func (e *Engine) verifyFunction(fc *FuncContract) (*VC, error) {
 		v, err := vc.specEval(fr, st, st, w, nil)
 		if err == nil {
 			vc.witness[w] = vc.def(vc.sortOfVal(v), v.term, "wit")
+			vc.witnessSort[vc.witness[w]] = vc.sortOfVal(v)
 		}
 	}
 	vc.entry = st.clone()
